@@ -45,7 +45,10 @@ RULE = (
     "sequence + row multiset, tie order is not demanded). roundtrip cases: Table.write -> load_table for tsv, csv, "
     "sep ; | space, .gz, compress=True, json, json.gz, pickle, plus to_csv / to_tsv strings parsed with the csv "
     "module: header equal, cell text equal (None -> '' in delimited files, floats by repr), int/float columns numeric "
-    "on reload; also .csv/.tsv(.gz) names with an explicit separator that is not the suffix default, given to "
+    "on reload (value and type of every numeric cell, nan-aware); float columns get nan / inf / -inf / 1e300 / "
+    "-0.0 / denormals / integral floats in the FIRST data row as well as later rows; load_table is also run with "
+    "static_column_types=True; natural joins share 2+ columns in a different order in the two tables (paired by "
+    "name in the model); also .csv/.tsv(.gz) names with an explicit separator that is not the suffix default, given to "
     "write(sep=) and load_table(sep= / delimiter=). live cases: ONE table object is mutated between observations "
     "(index_name set to a later column / cleared after construction, title, legend, format_column, format, column "
     "added / deleted / replaced through table.columns) and after the construction and after every step every read "
